@@ -22,10 +22,12 @@
 //                                      | two nodes one name; dangling target         | list survives depends on map order)
 //  Closure(m, names)                   | one / several / no names, an unknown name   | ops [new]; called on a Map that has been laid out
 //                                      | (panic); on a Map already laid out          | twice and reversed twice
-//  LayoutMap(m)                        | fresh Map; the SAME Map a second time       | every accepted case; ops "re" [new] (oracle only)
-//   state: layer/x/y in MapNode        | (layers already pushed, x/y set)            |
-//   (per Map, survives the call)       |                                             |
-//  Map.Reverse (twice), RevLayout      | after LayoutMap                             | every accepted case (maprev2, revbad)
+//  LayoutMap(m)                        | fresh Map; the SAME Map a second time       | every accepted case; ops "re" [new]
+//   state: layer/x/y in MapNode        | (layers already pushed, x/y set); a Map     | ops "seq" [new]: call sequences on ONE Map object
+//   (per Map, survives the call)       | that was REVERSED before; the Map returned  | N|Y|V then R/L/S (NRL, NLRL, YRL, VL, VRL, NRLRL, ...),
+//                                      | by Layout / RevLayout                       | every layout checked w.r.t. the map's orientation
+//                                      |                                             | at that moment, and against layout_from in Coq
+//  Map.Reverse (twice), RevLayout      | after LayoutMap; before LayoutMap           | every accepted case (maprev2, revbad); ops "seq"
 //  Map.SortedLayers / SortedNodes      | before LayoutMap (after: pushed layers,     | every accepted case (layers, topo)
 //                                      | NOT compared)                               |
 //  AllInsSorted(node)                  | before LayoutMap                            | ops "ais" [new] (oracle only)
@@ -106,6 +108,17 @@ type OpsIn struct {
 	Inj     bool  `json:"inj"`           // Ren is injective
 	Clo     []int `json:"clo"`           // Closure(m, names of these ids)
 	AisOf   int   `json:"aisof"`         // AllInsSorted of this key position
+	Seq     string `json:"seq,omitempty"` // calls on ONE Map object: N NewMap | Y Layout | V RevLayout (first), then R Map.Reverse, L LayoutMap, S SortedLayers
+}
+
+// SeqObs is what one step of a call sequence on one Map object showed.
+type SeqObs struct {
+	Op     string    `json:"op"`               // Y V L S R
+	Flip   bool      `json:"flip"`             // the Map is currently reversed w.r.t. the graph of the case
+	Nodes  []NodeObs `json:"nodes,omitempty"`  // L, Y, V: x, y per node
+	WH     [2]int    `json:"wh"`
+	Layers [][]int   `json:"layers,omitempty"` // S
+	Bad    string    `json:"bad,omitempty"`    // panic text
 }
 
 type GObs struct {
@@ -129,6 +142,7 @@ type OpsObs struct {
 	ReWH    [2]int    `json:"rewh"`
 	ReSets  bool      `json:"resets"`            // the node sets survived the second layout
 	JSONBad string    `json:"jsonbad,omitempty"` // LayoutJSON differs from the view
+	Seq     []SeqObs  `json:"seq,omitempty"`     // the call sequence on one Map object
 }
 
 type Case struct {
@@ -320,6 +334,9 @@ func corpus() []Case {
 	}
 	diamond := func() Case {
 		return general("corpus-ops", []string{"a", "b", "c", "d", "e"}, [][]int{{1, 3}, {2}, {3}, {}, {}})
+	}
+	for _, sq := range []string{"NRL", "YRL", "VL", "NLRLRL", "VRLS"} {
+		cs = append(cs, withOps(diamond(), OpsIn{Rm: 1, Sub: []int{0, 2, 3}, Ren: []int{4, 3, 2, 1, 0}, RenErr: -1, Inj: true, Clo: []int{0, 3}, AisOf: 3, Seq: sq}))
 	}
 	cs = append(cs, withOps(diamond(), OpsIn{Rm: 1, Sub: []int{0, 2, 3}, Ren: []int{4, 3, 2, 1, 0}, RenErr: -1, Inj: true, Clo: []int{0, 3}, AisOf: 3}))
 	cs = append(cs, withOps(diamond(), OpsIn{Rm: 3, Sub: []int{}, Ren: []int{0, 1, 2, 3, 4}, RenErr: 2, ErrName: true, Inj: true, Clo: []int{1}, AisOf: 0}))
@@ -925,6 +942,10 @@ func mapOps(c *Case, g *dags.Graph, m *dags.Map, view *dags.MapView, uni []strin
 		}
 	}
 
+	if in.Seq != "" {
+		oo.Seq = runSeq(in.Seq, g, idx)
+	}
+
 	// Closure
 	var names []string
 	for _, id := range in.Clo {
@@ -955,6 +976,61 @@ func mapOps(c *Case, g *dags.Graph, m *dags.Map, view *dags.MapView, uni []strin
 				VCI: []int{}, VCO: []int{}})
 		}
 	}()
+}
+
+// runSeq performs a call sequence on ONE Map object and records every layout
+// it produces together with the Map's orientation at that moment.
+func runSeq(seq string, g *dags.Graph, idx map[string]int) (out []SeqObs) {
+	viewObs := func(op string, flip bool, v *dags.MapView) SeqObs {
+		so := SeqObs{Op: op, Flip: flip, WH: [2]int{v.Width, v.Height}}
+		var ks []string
+		for k := range v.Nodes {
+			ks = append(ks, k)
+		}
+		sort.Slice(ks, func(i, j int) bool { return idx[ks[i]] < idx[ks[j]] })
+		for _, k := range ks {
+			so.Nodes = append(so.Nodes, NodeObs{Name: idx[k], X: v.Nodes[k].X, Y: v.Nodes[k].Y})
+		}
+		return so
+	}
+	defer func() {
+		if e := recover(); e != nil {
+			out = append(out, SeqObs{Op: "!", Bad: fmt.Sprintf("panic: %v", e)})
+		}
+	}()
+	var m *dags.Map
+	flip := false
+	for i, op := range seq {
+		switch {
+		case i == 0 && op == 'N':
+			m, _ = dags.NewMap(g)
+		case i == 0 && op == 'Y':
+			var v *dags.MapView
+			m, v, _ = dags.Layout(g)
+			out = append(out, viewObs("Y", flip, v))
+		case i == 0 && op == 'V':
+			var v *dags.MapView
+			m, v, _ = dags.RevLayout(g)
+			out = append(out, viewObs("V", flip, v))
+		case op == 'R':
+			m.Reverse()
+			flip = !flip
+			out = append(out, SeqObs{Op: "R", Flip: flip})
+		case op == 'L':
+			out = append(out, viewObs("L", flip, dags.LayoutMap(m)))
+		case op == 'S':
+			so := SeqObs{Op: "S", Flip: flip}
+			for _, layer := range m.SortedLayers() {
+				l := []int{}
+				for _, n := range layer {
+					l = append(l, idx[n.Name])
+				}
+				so.Layers = append(so.Layers, l)
+			}
+			out = append(out, so)
+		}
+	}
+	return out
 }
 
 // genOps draws the parameters of the derived-graph entry points for a case.
@@ -1006,6 +1082,8 @@ func genOps(r *hx.Rng, c *Case) {
 			in.Clo = []int{}
 		}
 	}
+	seqs := []string{"NRL", "NLRL", "YRL", "VL", "VRL", "NRLRL", "NLL", "YRLS", "NRSL", "VLRL", "NLRLL", "YLRL"}
+	in.Seq = seqs[r.Intn(len(seqs))]
 	c.Ops = in
 }
 
